@@ -3,7 +3,7 @@
   `bad-op` for anything the protocol does not define.  Request syntax: see harness/bgpsec_harness.c.
 
     size V|S D                  reqStreamSize
-    align V|S D                 "SUCCESS <reqStreamSize> <bytes written> <hex of alignBytes>"
+    align V|S D                 "SUCCESS <reqStreamSize> <bytes written> <hex of the stream: alignBytes, zero padded>"
     digest D <i>                hex of the SPEC Rfc8205.digest d i
     sdigest D                   hex of the SPEC Rfc8205.signDigest d
     offsets D                   offsetAt for i = 0 … n-1
@@ -145,7 +145,10 @@ def step (_ : Unit) (line : String) : Unit × String :=
     | some ty, some (d, []) =>
       if ty = .validation ∧ d.sigs = [] then bad else
       let bs := alignBytes ty d
-      ((), s!"SUCCESS {reqStreamSize ty d} {bs.length} {bytesToHex bs}")
+      let sz := reqStreamSize ty d
+      -- the stream is calloc'ed with `sz` bytes; more bytes than that would be a buffer overflow in C
+      if sz < bs.length then ((), s!"OVERFLOW {sz} {bs.length}") else
+      ((), s!"SUCCESS {sz} {bs.length} {bytesToHex (bs ++ List.replicate (sz - bs.length) 0)}")
     | _, _ => bad
   | "digest" :: rest =>
     match parseData rest with
